@@ -488,8 +488,18 @@ def rule_acct(ctx) -> None:
         return x.kind == "stmt" and isinstance(x.ast, (ast.Assign, ast.AugAssign)) and any(
             _self_attr(t, "_bytes") for t in (x.ast.targets if isinstance(x.ast, ast.Assign) else [x.ast.target]))
 
+    cost_p = put.params[3] if len(put.params) >= 4 else None
+
+    def adds_cost(x) -> bool:
+        # self._bytes = <... cost ...>   or   self._bytes += <... cost ...>
+        if not sets_bytes(x):
+            return False
+        if isinstance(x.ast, ast.AugAssign):
+            return isinstance(x.ast.op, ast.Add) and cost_p in (rd.slice([x.ast.value], x).params | {y.id for y in ast.walk(x.ast.value) if isinstance(y, ast.Name)})
+        return True
+
     for n, t in inserts:
-        p = must_pass(cfg, [n], lambda x: x is cfg.exit, lambda x: sets_bytes(x) and isinstance(x.ast, ast.Assign), edge_ok=no_exc, include_start=False)
+        p = must_pass(cfg, [n], lambda x: x is cfg.exit, adds_cost, edge_ok=no_exc, include_start=False)
         ctx.check(p is None, "C15.ACCT", f"{put.qual}/insert-commits-bytes:{'upd' if _is_update_branch(ctx, put, n, '_map') else 'new'}", put.loc(n.ast),
                   "every path from the insert to return commits the new byte total to self._bytes",
                   "an insert can return without committing the byte total", ctx.path_witness(put, p))
@@ -501,13 +511,22 @@ def rule_acct(ctx) -> None:
                       "the update branch subtracts the old cost before storing the new one",
                       "the update branch overwrites the entry without subtracting its old cost")
     # the committed total includes the new item's cost
-    commits = [x for x in cfg.nodes if sets_bytes(x) and isinstance(x.ast, ast.Assign)]
+    commits = [x for x in cfg.nodes if sets_bytes(x) and (isinstance(x.ast, ast.Assign) or (isinstance(x.ast, ast.AugAssign) and isinstance(x.ast.op, ast.Add)))]
     okc = False
     for x in commits:
         sl = rd.slice([x.ast.value], x)
-        params = sl.params
+        params = sl.params | {y.id for y in ast.walk(x.ast.value) if isinstance(y, ast.Name)}
         if len(put.params) >= 4 and put.params[3] in params:
             okc = True
+    # re-entrancy: the eviction loop calls the user's on_evict, which may put into this same cache.  A running total kept in
+    # a local and written back after the loop (`self._bytes = local`) overwrites what that nested put accounted for.
+    cb_nodes = [x for x in cfg.nodes if any(isinstance(c.func, ast.Attribute) and c.func.attr == "on_evict" for c in node_calls(x))]
+    writeback = [x for x in cfg.nodes if sets_bytes(x) and isinstance(x.ast, ast.Assign) and isinstance(x.ast.value, ast.Name) and rd.is_local(x.ast.value.id)
+                 and any(x in cfg.reach([c], include_start=False) for c in cb_nodes)]
+    ctx.check(not writeback, "C15.ACCT", f"{put.qual}/no-write-back-after-callback", put.loc(writeback[0].ast) if writeback else put.loc(),
+              "the byte total lives on the instance while the eviction loop (and its on_evict callback) runs",
+              (f"`{src(writeback[0].ast)}` writes a local running total back after the eviction loop has called on_evict: a callback that puts into this cache updates self._bytes in between and that "
+               "update is overwritten - the cache then holds more bytes than max_bytes while size_bytes() says it does not") if writeback else "")
     ctx.check(okc, "C15.ACCT", f"{put.qual}/total-includes-new-cost", put.loc(),
               "the committed byte total depends on the new item's cost", "the committed byte total ignores the new item's cost")
     # zero capacities short-circuit before any insert (all containers that must act disabled)
@@ -632,7 +651,41 @@ def rule_evict_completes(ctx) -> None:
     ctx.info("C15.EVICT", "positive-control/loop-escapes", "sa/hazards.py", hazards.controls(ctx, "clematis.engine.health", ["loop"]))
 
 
+def rule_capacity_domain(ctx) -> None:
+    """"act as disabled when capacities are zero, for every sequence of operations" and all capacity settings: the eviction loop
+    `while len(c) > cap: pop` is only safe for cap >= 0 - for a negative capacity it pops from an empty container and raises.
+    Sibling agreement: every bounded container keeps its capacity attributes >= 0 by construction (`max(0, int(cap))`), or
+    its loop test implies the container is non-empty.  And the namespaced manager's lookup does not allocate: get() must not
+    create the namespace object it is asked about (a disabled manager otherwise grows without bound under reads)."""
+    from .. import hazards
+    n = 0
+    for cq, fn, lp, caps, cont in eviction_loops(ctx):
+        lb = hazards.init_lower_bounds(ctx, cq)
+        for cap in caps:
+            attr = f"self.{cap}"
+            if attr not in src(lp.test):
+                continue
+            n += 1
+            nonneg = lb.get(attr, -1) >= 0
+            implied = hazards.nonempty_implied(lp.test, f"self.{cont}", nonneg=[a for a, b in lb.items() if b >= 0], pos=[a for a, b in lb.items() if b >= 1])
+            ctx.check(nonneg or implied, "C15.EVICT", f"{fn.qual}/capacity-is-never-negative:{cap}", fn.loc(lp), f"{attr} is kept >= 0 by the constructor (or the loop implies a non-empty container)",
+                      f"{attr} is taken from the constructor argument as it is: for a negative capacity `{src(lp.test)[:60]}` stays true on the empty container and the pop raises IndexError / KeyError - "
+                      "the sibling containers clamp with max(0, int(cap)) and act as disabled")
+    ctx.floor("C15.EVICT", "capacity attributes guarding an eviction loop", n, 5)
+    mg = ctx.prog.methods(CACHE + ":CacheManager")
+    g = mg.get("get")
+    if g is None:
+        raise AnalysisError("anchor-vanished: CacheManager.get")
+    allocs = [x for x in walk_no_defs(g.node) if isinstance(x, ast.Call) and ((r := ctx.prog.callee(g, x)) and r[1] in ctx.prog.funcs
+              and any(isinstance(y, ast.Assign) and any(isinstance(t, ast.Subscript) and src(t.value) == "self._ns" for t in y.targets) for y in walk_no_defs(ctx.prog.funcs[r[1]].node)))]
+    allocs += [x for x in walk_no_defs(g.node) if isinstance(x, ast.Assign) and any(isinstance(t, ast.Subscript) and src(t.value) == "self._ns" for t in x.targets)]
+    ctx.check(not allocs, "C15.EVICT", f"{g.qual}/lookup-does-not-allocate", g.loc(allocs[0]) if allocs else g.loc(), "get() reads the namespace table without adding to it",
+              f"`{src(allocs[0])[:50] if allocs else ''}` creates and keeps a namespace cache for whatever name get() is asked about: a manager - also one built with max_entries=0, 'disabled' - grows by one "
+              "retained object per distinct name under reads alone")
+
+
 def run(ctx) -> None:
+    rule_capacity_domain(ctx)
     rule_evict_completes(ctx)
     rule_ring_pairing(ctx)
     rule_lock(ctx)
